@@ -73,6 +73,8 @@ def units(tier):
 
 def _exact_rezone(t, own_off, dest_off):
     cls = pools.time_class(t)
+    if t[0] == "hmsf":
+        return True     # an offset change moves whole hours and minutes: a fractional *second* is never touched
     if cls == "general":
         return False
     if t[0] == "hf":
